@@ -11,15 +11,18 @@ RULE = ("random workflows (1-5 stages, every join type, scripted task outcomes i
         " PLUS the workflow-row engine pairs (harness/engine_pairs.py kind `wfrow`, Mode B, IMPLEMENTATION-ONLY): i -> d either fresh (StartWorkflow pending) or with every "
         "stage done (CompleteWorkflow pending) plus a pushed CancelWorkflow; StartWorkflow / CompleteWorkflow x CancelWorkflow in both directions, B's whole delivery at EVERY "
         "legal DB-call point of A (in particular between the status-writing handler's read of the workflow row and its commit), then FIFO drain; judged on the committed "
-        "history of the workflow row: once is_canceled = 1 was committed it is 1 at the end and no task execution begins")
+        "history of the workflow row: once is_canceled = 1 was committed it is 1 at the end and no task execution begins; "
+        "PLUS the pause / resume dimension (harness/synth_suites.py, family 'pause', IMPLEMENTATION-ONLY: monitors on real-engine traces, no model line; signatures prefixed pause:): plain workflows (engine_suites.gen_spec w0, sometimes one suspending task) AND synthetic-stage ones; operator ops p = store.pause (only while the workflow is RUNNING), u = Orchestrator.unpause, r = store.resume injected at random steps into fifo | random | redelivery | starve schedules, combined with a cancel (often issued together with the un-pause, or while paused), signals and a second pause; every third unit is the directed 'parked' member (2-3 parallel stages all parked PAUSED, then un-pause or cancel + un-pause, random order); in 20 % of the runs nobody un-pauses, otherwise the operator keeps at it until nothing is paused (settle_pause: unpause, drain, store.resume if the row is still PAUSED with nothing parked); a cancel in every run; judged by smon_c17 (cancel accepted while paused: no execution afterwards, workflow final - CANCELED unless a failure was decided -, every unfinished stage incl. parked ones CANCELED) and the transition-table monitor")
 ASSUMPTIONS = ["delays are abstracted: budget-respecting schedules deliver a delayed message only when no immediate one is pending",
                "per-workflow circuit breaker disabled in the harness (volatile state outside the model)",
+               "pause / resume dimension: 'un-paused' means the operator idiom of the repo's tests and demos (Orchestrator.unpause, then store.resume when the row is still PAUSED with nothing parked), repeated up to three times at quiescence; store.pause is only issued while the workflow row is RUNNING (store.pause() itself writes PAUSED over any status, also a final one: operator misuse, not generated); a message that raises on every delivery is dead-lettered after max_attempts deliveries (real check_and_move_expired) and the first such loss names the cause of what follows (`…@<msg>-dead-lettered:<exception>-while-workflow-<status>`)",
                "synthetic-stage family, 'had not already finished': a parent is in effect finished only if its own tasks are and every child has all task results recorded (or a failure is already decided); a parent whose tasks are done but whose after-stage has not run must end CANCELED; a child that had not started at acceptance must never start and may stay NOT_STARTED (CancelWorkflow fans out to top-level stages only) or end CANCELED; a child RUNNING / SUSPENDED at acceptance must end CANCELED",
                "workflow-row pairs: Mode B granularity (B atomic inside a read / write window of A); 'a cancel has been processed' = a write with is_canceled = 1 was "
                "committed; the raced handlers execute no task, so every task execution recorded after the snapshot began after that commit",
                "synthetic-stage family: the nine defects it found on the unchanged tree (S1-S9) were repaired (F44-F51); its pending gate (synth_suites.PENDING) is empty, every synth: signature is reported"]
 TRUSTED_BASE = ["Engine model (lean/Stab/Model/Engine.lean) is hand-written; tied to handlers/* by the trace differential on generated schedules only",
                 "not modelled: synthetic stages (and ContinueParentStage), mutex/deferred choice, OR-split conditions, pause/resume, timeouts, PostgreSQL backend",
+                "pause / resume (store.pause, PauseTask, Orchestrator.unpause / ResumeStage, store.resume) is covered by an IMPLEMENTATION-ONLY family as well (synth_suites family 'pause'): monitors on real-engine traces, no theorem, no model line",
                 "synthetic before/after stages are covered by an IMPLEMENTATION-ONLY family (harness/synth_suites.py): the property is stated by monitors on traces of the real engine; "
                 "no theorem and no model correspondence speaks about them; trusted there: the generator, the monitors' reading of the property (ASSUMPTIONS), the queue's dead-letter rule as replayed by the harness (op q = the real check_and_move_expired after max_attempts deliveries)",
                 "workflow-row engine pairs: implementation-only monitors on the trigger-recorded history of pipeline_executions and the task ledger; the model-side "
@@ -33,6 +36,8 @@ def run(ctx) -> None:
         engine_suites.run_for(ctx, "C17")
         # synthetic before/after stages: implementation-only family (monitors on real-engine traces, no model line)
         synth_suites.run_for(ctx, "C17")
+        # pause / resume dimension (plain and synthetic-stage workflows): implementation-only as well
+        synth_suites.run_for(ctx, "C17", family="pause")
     except BaseException:
         pairs["pool"].terminate()
         raise
